@@ -13,7 +13,7 @@
 (***************************************************************************)
 EXTENDS Naturals, Sequences, FiniteSets, TLC, SequencesExt
 
-CONSTANTS Coll, Name, Body, PropName, Value, MaxHist
+CONSTANTS Coll, Name, Body, PropName, Value, MaxHist, MaxInstr
 
 BValid(b) == b # 4
 BUid(b)   == CASE b = 1 -> "u1" [] b = 2 -> "u1" [] b = 3 -> "u2"
@@ -98,11 +98,16 @@ DeleteColl(c) ==
     /\ rq' = [op |-> "DeleteColl", c |-> c]
     /\ Apply(DeleteCollOutcome(st, rq'), c)
 
-Proppatch(c, p, set, v) ==
-    /\ rq' = [op |-> "Proppatch", c |-> c, p |-> p, set |-> set, v |-> v]
-    /\ IF Exists(st, c) /\ ~PropOK(st.colls[c], p)
+\* one PROPPATCH request: a sequence of 1..MaxInstr instructions, in document order; the
+\* instructions on properties the collection kind does not support are refused individually
+Instr == [p : PropName, set : BOOLEAN, v : Value]
+InstrSeqs == UNION {[1..k -> Instr] : k \in 1..MaxInstr}
+Proppatch(c, ins) ==
+    /\ rq' = [op |-> "Proppatch", c |-> c, ins |-> ins]
+    /\ LET done == IF Exists(st, c) THEN SelectSeq(ins, LAMBDA x : PropOK(st.colls[c], x.p)) ELSE ins IN
+       IF Exists(st, c) /\ done = <<>>
          THEN resp' = "refused" /\ UNCHANGED <<st, hist>>      \* per-property refusal
-         ELSE Apply(ProppatchOutcome(st, rq'), c)
+         ELSE Apply(ProppatchOutcome(st, [c |-> c, ins |-> done]), c)
 
 Restart ==
     /\ rq' = [op |-> "Restart"]
@@ -117,7 +122,7 @@ Next ==
     \/ \E c \in Coll, n \in Name : \E im \in Conds(c, n) : Delete(c, n, im)
     \/ \E c \in Coll, k \in Kinds : Mk(c, k)
     \/ \E c \in Coll : DeleteColl(c)
-    \/ \E c \in Coll, p \in PropName, v \in Value, set \in BOOLEAN : Proppatch(c, p, set, v)
+    \/ \E c \in Coll, ins \in InstrSeqs : Proppatch(c, ins)
     \/ Restart
 
 Spec == Init /\ [][Next]_vars
